@@ -328,10 +328,12 @@ def _paa_ghost():
 
 
 def _W(g, i, t):
-    """mass of series i on [0, t): prefix sum up to floor(t) plus the fraction of the cell that contains t"""
+    """mass of series i on [0, t): whole cells before t plus the covered fraction of the cell t falls into"""
     P, X2 = g["P"], g["X2"]
-    k = z3.ToInt(t)
-    return P(Z(i), k) + (t - z3.ToReal(k)) * Z(X2.fn(i, k))
+    # cell that contains the point just BEFORE t (k = ceil(t) - 1): the same continuous piecewise-linear function as with
+    # floor(t), but a frame end t = n + r with 0 < r <= 1 always falls into cell n (no case distinction r < 1 / r = 1)
+    k = -z3.ToInt(-t) - 1
+    return z3.If(t <= 0, z3.RealVal(0), P(Z(i), k) + (t - z3.ToReal(k)) * Z(X2.fn(i, k)))
 
 
 def _paa_mean(g, i, f, ell):
